@@ -129,8 +129,10 @@ def zsel(zname, J):
     return ['i', ['v', zname], {'l': J}]
 
 
-def gen_mask_calls(rng, d, n):
-    """dependency masks per entry built by adapt calls on the whole decision or on slices"""
+def gen_mask_calls(rng, d, n, groups=None):
+    """dependency masks per entry built by adapt calls on the whole decision or on slices; each call names
+    components of ONE random array (groups = [(lo, hi)] column ranges of the arrays)"""
+    groups = groups or [(0, n)]
     mask = [[0] * n for _ in range(d)]
     calls = []
     for _ in range(rng.randint(0, 3)):
@@ -142,7 +144,8 @@ def gen_mask_calls(rng, d, n):
         else:
             rows = list(range(d))
             tsel = None
-        free = [j for j in range(n) if all(mask[i][j] == 0 for i in rows)]
+        glo, ghi = rng.choice(groups)
+        free = [j for j in range(glo, ghi) if all(mask[i][j] == 0 for i in rows)]
         if not free:
             continue
         k = rng.randint(1, len(free))
@@ -159,6 +162,8 @@ def gen_combo(rng, cfg, kind):
     S = rng.randint(2, 5) if kind == 'dro' else 1
     labels, intlab = gen_labels(rng, S) if kind == 'dro' else ([0], True)
     n = rng.randint(1, 4)
+    n1 = n if (n == 1 or rng.random() < 0.55) else rng.randint(1, n - 1)       # z has n1 components, w the rest
+    arrays = [['z', 0, n1]] + ([['w', n1, n]] if n1 < n else [])
     d = rng.randint(1, 3)
     integer_y = kind == 'dro' and rng.random() < 0.2
     r = rng.sample([0.5, 0.75, 1.0, 1.25, 1.5, 2.0, 2.5], S)
@@ -183,22 +188,36 @@ def gen_combo(rng, cfg, kind):
         steps.append(s)
         return s['sid']
 
-    s_z = add({'op': 'rvar', 'id': 'z', 'm': 'm', 'shape': [n]}, [])
+    s_zs = [add({'op': 'rvar', 'id': an, 'm': 'm', 'shape': [hi - lo]}, []) for an, lo, hi in arrays]
+    s_z = s_zs[0]
+
+    def lin_c(ci):
+        e = None
+        for an, lo, hi in arrays:
+            t_ = ['@', ['c', ci[lo:hi]], ['v', an]] if rng.random() < 0.5 else ['@', ['v', an], ['c', ci[lo:hi]]]
+            e = t_ if e is None else ['+', e, t_]
+        return e
+
+    def box_set(rad):
+        st_ = []
+        for an, lo, hi in arrays:
+            form = rng.randrange(3)
+            if form == 0:
+                st_ += [['>=', ['v', an], ['c', [-rad] * (hi - lo)]], ['<=', ['v', an], ['c', [rad] * (hi - lo)]]]
+            elif form == 1:
+                st_ += [['<=', ['f', 'abs', ['v', an]], ['c', rad]]]
+            else:
+                st_ += [['<=', ['norm', ['v', an], 'inf'], ['c', rad]]]
+        return st_
     if kind == 'dro':
         s_y = add({'op': 'dvar', 'id': 'y', 'm': 'm', 'shape': [d], 'vtype': 'I' if integer_y else 'C'}, [])
         s_t = add({'op': 'dvar', 'id': 't', 'm': 'm', 'shape': [d]}, [])
         s_f = add({'op': 'amb', 'id': 'F', 'm': 'm'}, [])
         s_supp = []
         for s in range(S):
-            form = rng.randrange(3)
-            if form == 0:
-                st = [['>=', ['v', 'z'], ['c', [-r[s]] * n]], ['<=', ['v', 'z'], ['c', [r[s]] * n]]]
-            elif form == 1:
-                st = [['<=', ['f', 'abs', ['v', 'z']], ['c', r[s]]]]
-            else:
-                st = [['<=', ['norm', ['v', 'z'], 'inf'], ['c', r[s]]]]
+            st = box_set(r[s])
             sc = labels[s] if intlab else {'loc': labels[s]}
-            s_supp.append(add({'op': 'supp', 'amb': 'F', 'scen': sc, 'set': st}, [s_f, s_z]))
+            s_supp.append(add({'op': 'supp', 'amb': 'F', 'scen': sc, 'set': st}, [s_f] + s_zs))
         s_p = add({'op': 'prob', 'amb': 'F', 'set': [['==', ['v', 'm.p'], ['c', p]]]}, [s_f])
     else:
         s_y = add({'op': 'ldr', 'id': 'y', 'm': 'm', 'shape': [d]}, [])
@@ -218,25 +237,26 @@ def gen_combo(rng, cfg, kind):
     if integer_y:
         mask, mcalls = [[0] * n for _ in range(d)], []
     else:
-        mask, mcalls = gen_mask_calls(rng, d, n)
+        mask, mcalls = gen_mask_calls(rng, d, n, [(lo, hi) for _, lo, hi in arrays])
     prev = None
     for tsel, J in mcalls:
         tgt = ['v', 'y'] if tsel is None else ['i', ['v', 'y'], tsel]
+        an, lo, hi = [a_ for a_ in arrays if a_[1] <= J[0] < a_[2]][0]
         # affine adapt calls of one decision are kept in generation order (legality of later calls depends on it)
-        sid = add({'op': 'adapt', 'tgt': tgt, 'to': zsel('z', J)}, [s_y, s_z] + ([prev] if prev else []), role='adapt_aff')
+        sid = add({'op': 'adapt', 'tgt': tgt, 'to': zsel(an, [j - lo for j in J])}, [s_y] + s_zs + ([prev] if prev else []), role='adapt_aff')
         prev = sid
         s_ad.append(sid)
 
     # constraints (after every adapt of the decisions they use)
     cons_ids = []
     for i in range(d):
-        ci = ['@', ['c', c[i]], ['v', 'z']] if rng.random() < 0.5 else ['@', ['v', 'z'], ['c', c[i]]]
+        ci = lin_c(c[i])
         yi = ['i', ['v', 'y'], i]
         ti = ['i', ['v', 't'], i]
         # every declaration precedes the first expression (a decision declared after an expression was built
         # is a build-history hazard that belongs to C09 / M-HIST, not to this machine)
-        add({'op': 'cons', 'id': 'cy%d' % i, 'e': ['>=', yi, ci]}, [s_y, s_t, s_z] + s_ad, role='cons')
-        add({'op': 'cons', 'id': 'ct%d' % i, 'e': ['>=', ti, ['-', yi, ci]]}, [s_y, s_t, s_z] + s_ad, role='cons')
+        add({'op': 'cons', 'id': 'cy%d' % i, 'e': ['>=', yi, ci]}, [s_y, s_t] + s_zs + s_ad, role='cons')
+        add({'op': 'cons', 'id': 'ct%d' % i, 'e': ['>=', ti, ['-', yi, lin_c(c[i])]]}, [s_y, s_t] + s_zs + s_ad, role='cons')
         cons_ids += ['cy%d' % i, 'ct%d' % i]
     dep_all = [s['sid'] for s in steps]
     if kind == 'dro':
@@ -247,12 +267,12 @@ def gen_combo(rng, cfg, kind):
             add({'op': 'obj', 'm': 'm', 'how': 'minsup', 'e': obj_e, 'amb': 'F'}, [s_t, s_f] + s_ad, role='obj')
         add({'op': 'st', 'm': 'm', 'ids': cons_ids}, dep_all, role='st')
     else:
-        setc = [['<=', ['norm', ['v', 'z'], 'inf'], ['c', r[0]]]]
+        setc = box_set(r[0])
         obj_e = ['@', ['c', wts], ['v', 't']]
         if sense_max:
-            add({'op': 'obj', 'm': 'm', 'how': 'maxmin', 'e': ['neg', obj_e], 'set': setc}, [s_t, s_z], role='obj')
+            add({'op': 'obj', 'm': 'm', 'how': 'maxmin', 'e': ['neg', obj_e], 'set': setc}, [s_t] + s_zs, role='obj')
         else:
-            add({'op': 'obj', 'm': 'm', 'how': 'minmax', 'e': obj_e, 'set': setc}, [s_t, s_z], role='obj')
+            add({'op': 'obj', 'm': 'm', 'how': 'minmax', 'e': obj_e, 'set': setc}, [s_t] + s_zs, role='obj')
         add({'op': 'st', 'm': 'm', 'ids': cons_ids}, dep_all, role='st')
 
     order = gen.topo_order(rng, steps, rng.choice(['uniform', 'uniform', 'reverse', 'canonical']))
@@ -280,7 +300,7 @@ def gen_combo(rng, cfg, kind):
               'py': py.partition(), 'pt': pt.partition(), 'mask': mask}
     pool = ['def', 'ort', 'grb'] if integer_y else ['def', 'lpg', 'ort', 'grb', 'eco']
     return {'kind': 'combo-' + kind, 'ops': ops, 'steps': steps, 'model_op': ops[0], 'expect': expect, 'labels': labels, 'intlab': intlab, 'S': S,
-            'n': n, 'd': d, 'c': c, 'r': r, 'p': p, 'integer_y': integer_y, 'pool': pool, 'sense_max': sense_max}
+            'n': n, 'arrays': arrays, 'd': d, 'c': c, 'r': r, 'p': p, 'integer_y': integer_y, 'pool': pool, 'sense_max': sense_max}
 
 
 def gen_mix(rng, cfg):
@@ -753,14 +773,18 @@ def _check_solved(case, it, w, viol, stats, probe, props):
     if any(sum(r_) for r_ in ex['mask']):
         stats['checks_c12'] += 1
         stats['checks_c13'] += 1
-        try:
-            cv = it.env['y'].get(it.env['z'])
-        except Exception as e:
-            viol('C12', 'readback-raises', 'y.get(z) raised %r' % (e,), exc=type(e).__name__)
-            return
         import pandas as pd
-        mats = [np.asarray(v, float).reshape(d, n) for v in cv.values] if isinstance(cv, pd.Series) \
-            else [np.asarray(cv, float).reshape(d, n)] * S
+        mats = [np.full((d, n), np.nan) for _ in range(S)]
+        for an, lo, hi in case.get('arrays', [['z', 0, n]]):
+            try:
+                cv = it.env['y'].get(it.env[an])
+            except Exception as e:
+                viol('C12', 'readback-raises', 'y.get(%s) raised %r' % (an, e), exc=type(e).__name__)
+                return
+            part_ = [np.asarray(v, float).reshape(d, hi - lo) for v in cv.values] if isinstance(cv, pd.Series) \
+                else [np.asarray(cv, float).reshape(d, hi - lo)] * S
+            for s in range(S):
+                mats[s][:, lo:hi] = part_[s]
         try:
             ycall, _ = _call_rows(it.env['y'], S)
             tcall, _ = _call_rows(it.env['t'], S)
@@ -852,7 +876,10 @@ def _check_solved(case, it, w, viol, stats, probe, props):
                      tags=['cvx_eval'])
                 break
     # expression evaluation: decision-only affine expression, then bi-affine at a realisation
-    zv = np.array(case['zval'][:n], float)
+    arrays_ = case.get('arrays', [['z', 0, n]])
+    n1_ = arrays_[0][2]
+    zv = np.zeros(n)
+    zv[:n1_] = np.array(case['zval'][:n1_], float)          # only z is assigned; every other random array counts as zero
     zobj = it.env['z']
     try:
         for i in range(d):
@@ -869,8 +896,10 @@ def _check_solved(case, it, w, viol, stats, probe, props):
         return
     try:
         for i in range(d):
-            expr = it.env['y'][i] - np.array(case['c'][i]) @ zobj
-            got = expr(zobj.assign(zv))
+            expr = it.env['y'][i]
+            for an, lo, hi in arrays_:
+                expr = expr - np.array(case['c'][i][lo:hi]) @ it.env[an]
+            got = expr(zobj.assign(zv[:n1_]))
             rows_e, _ = _series_to_rows(got, S)
             for s in range(S):
                 Yrow = np.array([0.0 if v is None else v for v in ex['Y'][i]])
